@@ -1,5 +1,5 @@
 """Per-property claim texts for MANIFEST.json."""
-HOOK_COMMITS = ["84fa00b"]
+HOOK_COMMITS = ["84fa00b", "a007c71"]
 NOT_APPLICABLE = {}
 BASE_NOTE = ("Trusted: the harness' reference model of the documented wire format (harness/vcore/src/model.rs), the zoo generator's bookkeeping of definitions and edits, "
              "rustc/std; x86-64 Linux. Covers only executions produced by the workloads listed in the evidence file.")
